@@ -107,3 +107,13 @@ package base
 //@   hof BatchWork#0 inner invariant [linked-first] maps[0] != nil && prevheight + bstart + 1 != 0 ==> lastprev != nil && maps[0].Manifest().Previous().Equal(lastprev.Manifest().Hash())
 //@   hof BatchWork#0 inner invariant [newprev] bdone[blast] ==> newprev != nil && newprev.Manifest().Height() == prevheight + blast + 1
 //@   hof BatchWork#0 inner invariant [newprev-keep] !bdone[blast] ==> newprev == lastprev
+
+//@ func LoadSuffrageNodesStateValue
+//@   trusted
+//@   pure
+//@   ensures r1 == nil ==> r0 != nil
+
+// interface contracts (A9): a state always has a hash; beyond genesis it has a previous one
+//@ func (State).Previous
+//@   pure
+//@   ensures r0 != nil
